@@ -1,9 +1,172 @@
 import DspVerif.Driver.Proto
-/-! driver handlers for C14 (stub: no correspondence cases handled yet) -/
-namespace Dsp.Driver
-open Dsp.Proto
+import DspVerif.Model.Fft
+import DspVerif.Model.Hilbert
+/-! driver handlers for C14: `hilbert`, `HilbertFilter`, `Delay`, `Tuner` models at `Float`.
+
+The transform parameters of `hilbert` / `design_fir` are instantiated with the C01 model of the library's plans
+(`Fft.fftR`, `Fft.ifftWith (Fft.fftC …)` = `IfftPlan::solve`). -/
+namespace Dsp.Driver.C14
+open Dsp.Proto Dsp.Hilbert
+
+/-- the literals of the small kernels as written in the source (regenerated) -/
+def lits : Fft.Lits Float := ⟨Gen.fft8_c0, Gen.rfft8_c0, Gen.dft3_c0⟩
+
+/-- `fft(const arr_real&)` -/
+def fftF (x : Array Float) : Array (Cx Float) := Fft.fftR lits x.size x
+/-- `ifft(const arr_cmplx&)` = `IfftPlan(n).solve` -/
+def ifftF (X : Array (Cx Float)) : Array (Cx Float) := Fft.ifftWith (Fft.fftC lits X.size) X.size X
+
+/-- generator shared with `harness/c14.cpp` (`mix`, `gen_re`, `gen_im`) -/
+def mix (m s : UInt64) : UInt64 :=
+  let z := (m + 1) * 0x9e3779b97f4a7c15 + s * 0xbf58476d1ce4e5b9
+  let z := z ^^^ (z >>> 29)
+  let z := z * 0x94d049bb133111eb
+  z ^^^ (z >>> 32)
+
+def genRe (m s : UInt64) : Float := (Float.ofNat ((mix m s) % 4001).toNat - 2000.0) / 2048.0
+def genIm (m s : UInt64) : Float := (Float.ofNat (((mix m s) >>> 20) % 4001).toNat - 2000.0) / 2048.0
+
+/-- `digest` of `harness/c14.cpp`: 8 bins + 4 weighted sums -/
+def digest (y : Array (Cx Float)) : String :=
+  let n := y.size
+  let z : Cx Float := ⟨0.0, 0.0⟩
+  let bins := (List.range 8).map (fun i =>
+    let k := ((i * n) / 8 + (i % 3)) % n
+    let v := y.getD k z
+    fmtF v.re ++ " " ++ fmtF v.im)
+  let init : Array Float := #[0.0, 0.0, 0.0, 0.0, 0.0, 0.0, 0.0, 0.0]
+  let acc := (List.range n).foldl (fun (a : Array Float) k =>
+    let v := y.getD k z
+    let g0 : Float := 1.0
+    let g1 : Float := if k % 2 == 1 then -1.0 else 1.0
+    let g2 : Float := Float.ofNat (k % 7) - 3.0
+    let g3 : Float := Float.ofNat ((k * k) % 5) - 2.0
+    #[a[0]! + v.re * g0, a[1]! + v.im * g0, a[2]! + v.re * g1, a[3]! + v.im * g1,
+      a[4]! + v.re * g2, a[5]! + v.im * g2, a[6]! + v.re * g3, a[7]! + v.im * g3]) init
+  toString n ++ " " ++ String.intercalate " " bins ++ " " ++ fmtFloats acc.toList
+
+def takeFramesF : Nat → List String → Option (List (Array Float) × List String)
+  | 0, r => some ([], r)
+  | n + 1, r => do
+    let (x, r) ← takeFloats r
+    let (xs, r) ← takeFramesF n r
+    pure (x :: xs, r)
+
+def takeFramesC : Nat → List String → Option (List (Array (Cx Float)) × List String)
+  | 0, r => some ([], r)
+  | n + 1, r => do
+    let (x, r) ← takeCxs r
+    let (xs, r) ← takeFramesC n r
+    pure (x :: xs, r)
+
+/-- thread a processor state through the frames of one case, formatting every frame's output; `none` = exception -/
+def runFrames {σ γ : Type} (step : σ → γ → Option (σ × String)) (s : σ) (frames : List γ) : String :=
+  let r := frames.foldl (fun (acc : Option (σ × List String)) fr =>
+    match acc with
+    | none => none
+    | some a => match step a.1 fr with
+      | none => none
+      | some q => some (q.1, q.2 :: a.2)) (some (s, []))
+  match r with
+  | none => "ERR"
+  | some a => String.intercalate " " a.2.reverse
+
+def fmtE (r : Except String (Array (Cx Float))) : String :=
+  match r with
+  | .ok y => fmtCxArr y
+  | .error _ => "ERR"
+
+/-- indices of a long tuner stream whose outputs are compared (`tun_sel` of the harness) -/
+def tunSel (k total fs stride : Nat) : Bool :=
+  let m := k % fs
+  k % stride == 0 || m == 0 || m == 1 || m == fs - 1 || k + 2 ≥ total
 
 def h14 : List String → Option String
+  | "hilb" :: rest => do
+    let (x, _) ← takeFloats rest
+    some (fmtE (hilbert fftF ifftF x))
+  | "hilbg" :: n :: s :: _ => do
+    let n ← n.toNat?
+    let s ← s.toNat?
+    let x : Array Float := Array.ofFn (n := n) (fun i => genRe i.val.toUInt64 s.toUInt64)
+    match hilbert fftF ifftF x with
+    | .ok y => some (digest y)
+    | .error _ => some "ERR"
+  | "hilbn" :: np :: rest => do
+    let np ← np.toNat?
+    let (x, _) ← takeFloats rest
+    some (fmtE (hilbertN fftF ifftF x np))
+  | "hfd" :: flen :: tw :: _ => do
+    let flen ← flen.toNat?
+    let tw ← parseF tw
+    match hfNew ifftF flen tw with
+    | .ok s => some (fmtFloatArr (hfImpz s))
+    | .error _ => some "ERR"
+  | "hfp" :: rest => do
+    let (h, rest) ← takeFloats rest
+    let nf ← (← rest.head?).toNat?
+    let (frames, _) ← takeFramesF nf rest.tail
+    match hfInit h with
+    | .ok s => some (runFrames (fun s x => let r := hfProcess s x; some (r.1, fmtCxArr r.2)) s frames)
+    | .error _ => some "ERR"
+  | "dlyR" :: nd :: rest => do
+    let nd ← nd.toNat?
+    let nf ← (← rest.head?).toNat?
+    let (frames, _) ← takeFramesF nf rest.tail
+    some (runFrames (fun s x => match delayProcessE s x with
+      | .ok r => some (r.1, fmtFloatArr r.2)
+      | .error _ => none) (delayInit (0.0 : Float) nd) frames)
+  | "dlyC" :: nd :: rest => do
+    let nd ← nd.toNat?
+    let nf ← (← rest.head?).toNat?
+    let (frames, _) ← takeFramesC nf rest.tail
+    some (runFrames (fun s x => match delayProcessE s x with
+      | .ok r => some (r.1, fmtCxArr r.2)
+      | .error _ => none) (delayInit (⟨0.0, 0.0⟩ : Cx Float) nd) frames)
+  | "dlyI" :: rest => do
+    let (ini, rest) ← takeFloats rest
+    let nf ← (← rest.head?).toNat?
+    let (frames, _) ← takeFramesF nf rest.tail
+    some (runFrames (fun s x => match delayProcessE s x with
+      | .ok r => some (r.1, fmtFloatArr r.2)
+      | .error _ => none) (delayInitWith ini) frames)
+  | "tunx" :: fs :: f :: rest => do
+    let fs ← fs.toNat?
+    let f ← parseF f
+    let nf ← (← rest.head?).toNat?
+    let (frames, _) ← takeFramesC nf rest.tail
+    match tunerInit fs f with
+    | .ok s => some (runFrames (fun s x => let r := tunerProcess s x; some (r.1, fmtCxArr r.2)) s frames)
+    | .error _ => some "ERR"
+  | "tun" :: fs :: f :: sd :: stride :: nf :: rest => do
+    let fs ← fs.toNat?
+    let f ← parseF f
+    let sd ← sd.toNat?
+    let stride ← stride.toNat?
+    let nf ← nf.toNat?
+    let lens ← (rest.take nf).mapM (fun t => t.toNat?)
+    match tunerInit fs f with
+    | .error _ => some "ERR"
+    | .ok s0 =>
+      let total := lens.foldl (· + ·) 0
+      -- frames of the generated stream x[k] = (genRe k sd, genIm k sd)
+      let r := lens.foldl (fun (acc : TunerState Float × Nat × Array String) l =>
+        let s := acc.1
+        let p := acc.2.1
+        let x : Array (Cx Float) := Array.ofFn (n := l) (fun i => ⟨genRe (p + i.val).toUInt64 sd.toUInt64, genIm (p + i.val).toUInt64 sd.toUInt64⟩)
+        let q := tunerProcess s x
+        let toks := (List.range l).foldl (fun (t : Array String) i =>
+          if tunSel (p + i) total fs stride then
+            let v := q.2.getD i ⟨0.0, 0.0⟩
+            t.push (fmtF v.re ++ " " ++ fmtF v.im)
+          else t) acc.2.2
+        (q.1, p + l, toks)) (s0, 0, #[])
+      let toks := r.2.2
+      some (if toks.isEmpty then "0" else toString toks.size ++ " " ++ String.intercalate " " toks.toList)
   | _ => none
 
+end Dsp.Driver.C14
+
+namespace Dsp.Driver
+def h14 : List String → Option String := Dsp.Driver.C14.h14
 end Dsp.Driver
